@@ -9,6 +9,8 @@ func Run(prop, tier string, c *kernel.Chooser, r *kernel.Recorder) *kernel.Viola
 		return runC09(prop, tier, c, r)
 	case "C10":
 		return runC10(prop, tier, c, r)
+	case "C11":
+		return runC11(prop, tier, c, r)
 	case "C17":
 		return runC17(prop, tier, c, r)
 	}
